@@ -427,6 +427,80 @@ def check_after_load_hook(chk, rng, n, mechanism="select-after-load-hook"):
                           {"kind": "after-load-hook", "sdl": sdl, "dropped": victim, "form": form, "offered": offered})
 
 
+def cli_counts(chk):
+    """The counts a user sees: the real `st run` against a loopback GraphQL endpoint (graphql-core behind http.server) with
+    name filters, reached through both loader paths of the CLI (a location that looks like GraphQL, and one that does not:
+    `/api`).  `Selected: n/N` must be the root fields passing the filters over all root query and mutation fields, and only
+    the selected fields receive requests."""
+    import http.server
+    import subprocess
+    import sys
+    import threading
+    sdl = "type Query { alpha: Int beta(x: Int): String gamma: Boolean } type Mutation { make(x: Int): Int }"
+    gschema = graphql.build_schema(sdl)
+    hits = []
+
+    class H(http.server.BaseHTTPRequestHandler):
+        protocol_version = "HTTP/1.1"
+
+        def log_message(self, *a):
+            pass
+
+        def do_POST(self):
+            n = int(self.headers.get("Content-Length") or 0)
+            try:
+                q = json.loads(self.rfile.read(n) or b"{}").get("query", "")
+            except ValueError:
+                q = ""
+            if "__schema" not in q:
+                hits.append(q)
+            res = graphql.graphql_sync(gschema, q)
+            b = json.dumps({"data": res.data, **({"errors": [str(e) for e in res.errors]} if res.errors else {})}).encode()
+            self.send_response(200)
+            self.send_header("Content-Type", "application/json")
+            self.send_header("Content-Length", str(len(b)))
+            self.end_headers()
+            self.wfile.write(b)
+
+        def do_GET(self):        # a GraphQL endpoint answers POST only; the CLI's loader falls back to GraphQL on this
+            self.send_response(405)
+            self.send_header("Content-Length", "0")
+            self.end_headers()
+
+    srv = http.server.ThreadingHTTPServer(("127.0.0.1", 0), H)
+    threading.Thread(target=srv.serve_forever, daemon=True).start()
+    try:
+        port = srv.server_address[1]
+        for path, flt, want in (("/api", ["--include-name=Query.alpha"], ["alpha"]),
+                                ("/graphql", ["--include-name=Query.alpha"], ["alpha"]),
+                                ("/api", ["--exclude-name=Mutation.make", "--exclude-name=Query.gamma"], ["alpha", "beta"])):
+            del hits[:]
+            with tempfile.TemporaryDirectory(prefix="c20-") as td:
+                cmd = [sys.executable, "-m", "schemathesis.cli", "run", f"http://127.0.0.1:{port}{path}", "--phases=fuzzing",
+                       "--max-examples=2", "--seed=1", "--checks=not_a_server_error"] + flt
+                p = subprocess.run(cmd, capture_output=True, text=True, cwd=td, timeout=300,
+                                   env=dict(os.environ, COLUMNS="200", HYPOTHESIS_STORAGE_DIRECTORY=td + "/hyp"))
+            mm = re.search(r"Selected:\s*(\d+)\s*/\s*(\d+)", p.stdout)
+            if p.returncode not in (0, 1) or not mm:
+                raise InfraError(f"`st run` on a GraphQL endpoint: rc={p.returncode} {p.stdout[-600:]} {p.stderr[-600:]}")
+            got = [int(mm.group(1)), int(mm.group(2))]
+            fields_hit = sorted({f for q in hits for f in ("alpha", "beta", "gamma", "make") if re.search(r"\b%s\b" % f, q)})
+            chk.case("st-run:counts", key=[path, flt], nontrivial=True, sample={"location": path, "filters": flt, "selected/total": got,
+                                                                               "fields_requested": fields_hit})
+            chk.feature(f"st-run:counts:location-looks-like-graphql={path == '/graphql'}")
+            rep = {"kind": "cli-counts", "argv": cmd[3:], "stdout_tail": p.stdout[-900:], "fields_requested": fields_hit}
+            if got != [len(want), 4]:
+                chk.violation("C20:st-run:selected-total-counts-differ-from-fields-passing-the-filters",
+                              f"`st run …{path} {' '.join(flt)}` prints Selected: {got[0]}/{got[1]}; {len(want)} of the 4 root fields "
+                              f"pass the filters ({want})", rep)
+            if fields_hit != sorted(want):
+                chk.violation("C20:st-run:requests-sent-to-other-fields-than-the-selected-ones",
+                              f"fields requested {fields_hit}, selected by the filters {sorted(want)}", rep)
+    finally:
+        srv.shutdown()
+        srv.server_close()
+
+
 def classify_lookup(chk, raw, mraw, history, impl, m, variant, mechanism):
     wire = {"raw": mraw, "history": history}
     model = m[variant]
@@ -1488,6 +1562,7 @@ def run(chk):
     check_select(chk, items, "select")
     check_derivations(chk, rng, items)
     check_after_load_hook(chk, rng, chk.budget(40, 400))
+    cli_counts(chk)
     items = []
     for _ in range(chk.budget(120, 1200)):
         desc = c20_sdl.index_desc(rng)
